@@ -8,21 +8,20 @@ from core.wire import atom, enc, line, parse_reply, Atom
 
 ID = "C07"
 LEAN_TARGETS = ["TornadoModel.C07.Props"]
-THEOREMS_FULL = [
+THEOREMS = [
     "TornadoModel.C07.no_ctl_on_wire",
-    "TornadoModel.C07.no_ctl_in_wire_bytes",
+    "TornadoModel.C07.nul_not_in_wire",
     "TornadoModel.C07.exact_lines",
     "TornadoModel.C07.lines_intended",
     "TornadoModel.C07.lines_nonempty",
-    "TornadoModel.C07.convert_clean",
-    "TornadoModel.C07.checkReason_clean",
+    "TornadoModel.C07.convert_str_clean",
+    "TornadoModel.C07.convert_bytes_clean",
     "TornadoModel.C07.set_header_stores",
-    "TornadoModel.C07.add_header_stores",
+    "TornadoModel.C07.checkReason_clean",
     "TornadoModel.C07.redirect_location_clean",
-    "TornadoModel.C07.reject_writes_nothing",
     "TornadoModel.C07.old_guard_lets_nul_through",
+    "TornadoModel.C07.old_guard_no_crlf",
 ]
-THEOREMS = ["TornadoModel.C07.stub"]
 TRUSTED = [
     "str.capitalize/split/join, str.encode('latin1'/'utf-8'), '%d' formatting, dict insertion order — as written in C07/Model.lean",
     "CPython `re` for _VALID_HEADER_CHARS, _ABNF.field_name/field_value/reason_phrase and the write_headers guard (hand-modelled character classes)",
@@ -43,11 +42,12 @@ RULE = ("single API calls with every byte 0-255 (and 8 code points > 0xFF) embed
 EXHAUSTIVE = {"quick": True, "thorough": True}
 CLAUSES = {
     "either the call is rejected with an exception or the serialized response contains exactly the intended header lines":
-        "exact_lines + lines_intended + set_header_stores + add_header_stores + reject_writes_nothing",
+        "exact_lines + lines_intended + lines_nonempty + set_header_stores + convert_str_clean/convert_bytes_clean + "
+        "checkReason_clean + redirect_location_clean (a raising finish() writes nothing: by construction of the model, tie-checked)",
     "no additional header line, status line or body": "exact_lines (the strict reader returns exactly the model's lines and an empty remainder)",
     "No CR, LF or NUL byte supplied by the application ever reaches the wire inside the header block":
-        "no_ctl_on_wire + no_ctl_in_wire_bytes (for every call sequence; holds for the tree with the D9 fix, "
-        "old_guard_lets_nul_through refutes it for the guard as found)",
+        "no_ctl_on_wire + nul_not_in_wire (for every call sequence; holds for the tree with the D9 fix; "
+        "old_guard_lets_nul_through refutes it for the guard as found, old_guard_no_crlf is the part that held)",
     "every header-producing API (str and bytes values, reason, cookie fields, redirect url)": "tie: complete enumeration of single bytes per field",
 }
 PARALLEL = True
